@@ -117,9 +117,12 @@ func runSolver(ctx context.Context, s solverCfg, file string, timeout float64) (
 
 // discharge decides one obligation with the portfolio.
 func discharge(o *Obligation, opt *solveOpts, idx int) {
-	if o.Kind == "jsonable" || o.Kind == "recover-frame" {
+	if o.Kind == "jsonable" || o.Kind == "recover-frame" || o.Kind == "confine" || o.Kind == "bounded" {
 		// structural obligations are decided by the generator itself (go/types, SSA shape)
 		o.Solver = "structural(go/types+ssa)"
+		if o.Kind == "bounded" {
+			o.Solver = "bounded-enumeration(go)"
+		}
 		if o.Goal == "true" {
 			o.Verdict = "unsat"
 		} else {
